@@ -402,8 +402,12 @@ pub fn world_to_tile(world_x: f32, world_y: f32) -> (u32, u32) {
     const MAP_SIZE: f32 = 533.333_3;
     const MAP_OFFSET: f32 = 32.0 * MAP_SIZE;
 
-    let tile_x = ((MAP_OFFSET - world_y) / MAP_SIZE) as u32;
-    let tile_y = ((MAP_OFFSET - world_x) / MAP_SIZE) as u32;
+    // Tile corners produced by `tile_to_world` land a few ULPs below the exact
+    // tile boundary in f32; without a tolerance they truncate into the previous tile.
+    const BOUNDARY_EPSILON: f32 = 1.0e-4;
+
+    let tile_x = ((MAP_OFFSET - world_y) / MAP_SIZE + BOUNDARY_EPSILON) as u32;
+    let tile_y = ((MAP_OFFSET - world_x) / MAP_SIZE + BOUNDARY_EPSILON) as u32;
 
     (tile_x.min(63), tile_y.min(63))
 }
